@@ -128,7 +128,9 @@ class Module:
 
     # -- helpers ---------------------------------------------------------
     def loc(self, node):
-        return f'{self.relpath}:{getattr(node, "lineno", 0)}'
+        # modules rewritten by normalize.py carry virtual, strictly increasing statement numbers in `lineno` (the analyses order
+        # statements by it); the line in the file is kept in `_orig_lineno`
+        return f'{self.relpath}:{getattr(node, "_orig_lineno", getattr(node, "lineno", 0))}'
 
     def enclosing_func(self, node):
         n = getattr(node, '_parent', None)
